@@ -72,7 +72,7 @@ CLAIMED = {
         "DESIGN.md#c02",
     ),
     "C13": (
-        "proof",
+        "other",
         "ownership-chain analysis (who-may-write over the builder and connection classes) for the size clause; guard extraction and field-dependency closure for the padding flag and pad target; CFG dominance of the budget installation over every emitting call; linear normal form of the budget expression; writer enumeration for is_validated",
         "R1 (no datagram exceeds the configured size) is proved from the ownership chain datagrams_to_send -> flush() -> _buffer.data -> Buffer(max_datagram_size) together with C04's object invariant. R2/R3 decide the plumbing of the padding flag, of the pad target and of the 3x budget on every emitting path (including the closing branch).",
         "Level reported as 'other' while the two R2.floor findings (pad target lowered below 1200 by the congestion / amplification budget) are open; the numeric 3x inequality over a schedule is decided only through the plumbing.",
